@@ -48,3 +48,70 @@ func VerifCheckProperty(entry uint8, nullRejA, nullRejB, leftA, rightA uint64) b
 	eB := &edge{op: &operator{joinType: plan.JoinTypeCross}, nullRejectedRels: vertexSet(nullRejB)}
 	return checkProperty(tab, eA, eB)
 }
+
+// VerifChainEdge is what the conflict detection computed for one edge of a synthetic join chain.
+type VerifChainEdge struct {
+	Op    int // the operator: left input = vertexes 0..Op-1, right input = vertex Op
+	Ses   uint64
+	Tes   uint64
+	Rules [][2]uint64 // (from, to)
+}
+
+// VerifChainEdges builds the edges of a LEFT-DEEP CHAIN OF INNER JOINS the way buildJoinOp /
+// buildInnerEdge do (operator k+1 joins vertexes 0..k with vertex k+1; one edge per conjunct, whose
+// SES is ons[k][c]; an operator without conjunct is a cross join: one edge with SES 0) and runs
+// the REAL edge.calcTES on each of them. Read-only: the edges are private to the call. The edges are
+// returned to the caller only as plain numbers; VerifChainApplicable re-creates them.
+func verifChainEdges(ons [][]uint64) []edge {
+	var edges []edge
+	for k, conj := range ons {
+		m := k + 1
+		var leftE edgeSet
+		for i := range edges {
+			leftE.Add(i)
+		}
+		typ := plan.JoinTypeInner
+		if len(conj) == 0 {
+			typ = plan.JoinTypeCross
+			conj = []uint64{0}
+		}
+		op := &operator{
+			joinType:      typ,
+			leftVertices:  vertexSet((uint64(1) << uint(m)) - 1),
+			rightVertices: vertexSet(uint64(1) << uint(m)),
+			leftEdges:     leftE,
+			rightEdges:    edgeSet{},
+		}
+		var fresh []edge
+		for _, ses := range conj {
+			e := edge{op: op, ses: vertexSet(ses)}
+			e.calcTES(edges)
+			fresh = append(fresh, e)
+		}
+		// (buildInnerEdge appends one edge after the other, but an edge of the same operator is not in
+		// leftEdges, so the order inside one operator does not matter)
+		edges = append(edges, fresh...)
+	}
+	return edges
+}
+
+func VerifChainEdges(ons [][]uint64) []VerifChainEdge {
+	var out []VerifChainEdge
+	for _, e := range verifChainEdges(ons) {
+		v := VerifChainEdge{Ses: uint64(e.ses), Tes: uint64(e.tes)}
+		for r := uint64(e.op.rightVertices); r > 1; r >>= 1 {
+			v.Op++
+		}
+		for _, r := range e.rules {
+			v.Rules = append(v.Rules, [2]uint64{uint64(r.from), uint64(r.to)})
+		}
+		out = append(out, v)
+	}
+	return out
+}
+
+// VerifChainApplicable: the REAL edge.applicable(s1, s2) of edge number i of the chain.
+func VerifChainApplicable(ons [][]uint64, i int, s1, s2 uint64) bool {
+	edges := verifChainEdges(ons)
+	return edges[i].applicable(vertexSet(s1), vertexSet(s2))
+}
